@@ -149,6 +149,7 @@ func matrixCorpora(thorough bool) ([]*shardCase, error) {
 			wl = 7
 		}
 		add("words", false, gen.DocsCorpus("docs/words", 13, []string{"a", "-", "x", " ", "\n"}, wl, 0))
+		add("words-case", false, gen.DocsCorpus("docs/wordscase", 15, []string{"a", "A", "x", " ", "X"}, wl-1, 0))
 		// token documents: every sequence of up to 5 (6) tokens over {abc, abd, newline, space, xyz}
 		// puts two literals of >= 3 runes on the same / adjacent / distant lines (pre-filters that
 		// combine several trigram iterators, the same-line optimisation)
@@ -322,8 +323,10 @@ func matrixQueries(sc *shardCase, thorough bool) []query.Q {
 		two := gen.SubstringAtoms([]string{"abc", "abd", "xyz"}, [][2]bool{{false, true}})
 		two = append(two, gen.RegexpAtoms([]string{"abc.*abd", "abd(?s:.*)abc"}, [][2]bool{{false, true}})...)
 		qs = append(qs, gen.Combine(two, 1)...)
-	case sc.name == "words":
-		qs = append(qs, gen.RegexpAtoms([]string{`\ba\b`, `\baa\b`, `\ba-a\b`, `\b-a\b`, `\ba-\b`, `\bxa\b`, `\b-\b`, `\ba a\b`, `\bax\b`, `\baxa\b`, `\b--\b`, `\ba-a-a\b`, `\bxax\b`, `\ba\na\b`, `\Ba\B`, `\ba`, `a\b`}, [][2]bool{{false, true}})...)
+	case sc.name == "words" || sc.name == "words-case":
+		qs = append(qs, gen.RegexpAtoms([]string{`\ba\b`, `\baa\b`, `\ba-a\b`, `\b-a\b`, `\ba-\b`, `\bxa\b`, `\b-\b`, `\ba a\b`, `\bax\b`, `\baxa\b`, `\b--\b`, `\ba-a-a\b`, `\bxax\b`, `\ba\na\b`, `\Ba\B`, `\ba`, `a\b`,
+			// a case-insensitive group inside a case-sensitive query (the word fast path must not take it for a plain word)
+			`\b(?i:a)\b`, `\b(?i:xa)\b`, `\b(?i:axa)\b`, `\b(?i:A)\b`, `(?i:\bxax\b)`, `\b(?i:a-a)\b`}, [][2]bool{{false, true}})...)
 		qs = append(qs, gen.SubstringAtoms([]string{"a-a", "a-a-a", "xax", "-a-", "aaa", "a a"}, [][2]bool{{false, true}})...)
 	case strings.HasPrefix(sc.name, "docs-"):
 		pats := gen.AllStrings([]string{"a", "b", "A", " ", "\n", "é"}, 3)[1:]
